@@ -2,6 +2,8 @@ package c19
 
 import (
 	"fmt"
+	"os"
+	"path/filepath"
 	"strconv"
 	"strings"
 
@@ -28,7 +30,9 @@ type CLCase struct {
 var clFlags = []string{"no-doc", "indent=0", "indent=4", "indent=1", "unwrapScalar=false", "unwrapScalar=true", "nul-output",
 	"xml-attribute-prefix=@", "xml-content-name=txt", "xml-skip-proc-inst", "xml-skip-directives", "xml-proc-inst-prefix=pi_", "xml-directive-name=dir", "xml-keep-namespace=false",
 	"csv-separator=;", "csv-auto-parse=false", "tsv-auto-parse=false", "properties-separator=:", "properties-separator= ", "properties-array-brackets",
-	"lua-globals", "lua-unquoted", "lua-prefix=x = ", "lua-suffix=;", "string-interpolation=false", "header-preprocess=false"}
+	"lua-globals", "lua-unquoted", "lua-prefix=x = ", "lua-suffix=;", "string-interpolation=false", "header-preprocess=false",
+	// flags of the command itself: pretty print (the expression is piped into `... style=""`), colours, the old -j, the expression in a file
+	"prettyPrint", "colors", "no-colors", "tojson", "from-file"}
 
 var clExprs = []string{".", ".", ".a", ".[]", "..", ".s", "[.a, .s]", ".b", "keys", "length", `"\(.a)-\(.s)"`, ".a | tostring", ". as $x | $x.s", "to_entries", ".b[0]", `{"k": .s}`, "[.. | select(tag == \"!!str\")]", ".root", ".root.s", ".[0]", ".t"}
 
@@ -136,8 +140,35 @@ func (c CLCase) libOpts() hx.Opts {
 	return o
 }
 
+func has(fl []string, name string) bool {
+	for _, f := range fl {
+		if f == name {
+			return true
+		}
+	}
+	return false
+}
+
 func checkCL(c CLCase) hx.Verdict {
-	lib := hx.Run(c.Expr, c.Input, c.libOpts())
+	lo := c.libOpts()
+	expr := c.Expr
+	if has(c.Flags, "prettyPrint") {
+		expr = expr + " | " + yqlib.PrettyPrintExp
+	}
+	if has(c.Flags, "tojson") {
+		lo.Out = "json"
+	}
+	if has(c.Flags, "colors") {
+		prev := lo.Tweak
+		lo.Tweak = func() {
+			if prev != nil {
+				prev()
+			}
+			yqlib.ConfiguredYamlPreferences.ColorsEnabled = true
+			yqlib.ConfiguredJSONPreferences.ColorsEnabled = true
+		}
+	}
+	lib := hx.Run(expr, c.Input, lo)
 	if lib.Crashed() || lib.Timeout {
 		return hx.Unspec("library_crash_or_timeout") // C11's matter
 	}
@@ -145,11 +176,25 @@ func checkCL(c CLCase) hx.Verdict {
 	if c.EvalAll {
 		args = append(args, "ea")
 	}
-	args = append(args, "-p="+c.In, "-o="+c.Out)
+	args = append(args, "-p="+c.In)
+	if !has(c.Flags, "tojson") {
+		args = append(args, "-o="+c.Out)
+	}
+	fromFile := false
 	for _, f := range c.Flags {
+		if f == "from-file" {
+			fromFile = true
+			continue
+		}
 		args = append(args, "--"+f)
 	}
-	args = append(args, "--expression", c.Expr, "-")
+	if fromFile {
+		ef := filepath.Join(workdir(), "expr.yq")
+		_ = os.WriteFile(ef, []byte(c.Expr), 0o644)
+		args = append(args, "--from-file", ef, "-")
+	} else {
+		args = append(args, "--expression", c.Expr, "-")
+	}
 	bin := run(args, []byte(c.Input))
 	if crashed(bin) {
 		return hx.Bad("panic-site:binary", "yq crashed: %v %.300s", args, bin.Stderr)
